@@ -269,7 +269,8 @@ SPECS['C19'] = {
     'technique': 'exhaustive enumeration of handshake executions (honest, every credential defect, per-record tampering, every entropy-draw failure on both roles) and a list of secret-handling API sequences incl. their failure modes; fd 1 and fd 2 captured per execution and searched for every secret of that execution',
     'claim': 'In the default build, for 6 handshake configurations x {honest, 6 credential defects per role, bit flip / drop / duplicate of each of the first 8 records per direction, failure of each of the first 72 entropy draws per role} and for the SM2 / PKCS#8 / CMS / SM9 secret-handling sequences (success, tampered input, wrong key, wrong password, entropy failure), no window of 8 bytes of any private key, password, plaintext, pre-master / master secret, key block, TLS 1.3 secret, traffic key or IV appears on standard output or standard error, raw or as hex.',
     'trusted': 'secrets of the handshakes are captured at derivation by link-time wrapping of tls_prf / hkdf_extract / hkdf_expand; only fd 1 and fd 2 are observed (the library writes diagnostics nowhere else)',
-    'rule': 'per execution: secrets = private scalars, application plaintext, PRF/HKDF inputs and outputs (Finished verify_data excluded), passwords; search = raw 8-byte windows and 16-hex-digit windows over the separator-stripped, case-folded capture. executions: handshakes (honest, 6 credential defects, 48 record faults, every failing entropy draw, 81 post-handshake operation pairs per protocol), 7 API scenarios, key-file import failure paths (5 container kinds x {consistent, spliced public point} x every 1-byte substitution (3 values) and truncation). distinct = (configuration, variant).',
+    'require_counters': {'quick': {'tls12_runs_with_a_leading_zero_secret': 3, 'tls13_runs_with_a_leading_zero_secret': 2, 'tlcp_runs_with_a_leading_zero_secret': 3}},
+    'rule': 'per execution: secrets = private scalars, application plaintext, PRF/HKDF inputs and outputs (Finished verify_data excluded), passwords; search = raw 8-byte windows and 16-hex-digit windows over the separator-stripped, case-folded capture. executions: handshakes (honest, 6 credential defects, 48 record faults, every failing entropy draw, 81 post-handshake operation pairs per protocol, the honest handshake under 1024 (thorough 4096) further entropy scripts so that value-dependent diagnostics show: runs whose key-exchange secret has a leading / trailing zero octet are counted and a minimum is required), 7 API scenarios, key-file import failure paths (5 container kinds x {consistent, spliced public point} x every 1-byte substitution (3 values) and truncation). distinct = (configuration, variant).',
     'bound': {'quick': 'whole menu', 'thorough': 'whole menu'},
     'assumptions': ['explicit print / export calls are not invoked', 'secrets shorter than 8 bytes are not searched'],
     'quick': [J('c19', 'fast', srcs=TLSSRC, libs=WRAPS)],
